@@ -44,14 +44,20 @@ Proof. intros Hd Hp Hn Hr. unfold resolve in Hr. now apply (walk_lexical fs fl l
 (* ====================================================================== *)
 (* one primitive applied at the logical path lp either leaves the file system
    alone or replaces / creates the node at exactly lp, compatibly *)
+(* [Q lp t]: what is known of a symbolic link with target t written at lp (a
+   parameter: True for C01, the acceptance test of Unpack for C04) *)
+Section Writes.
+Variable Q : path -> str -> Prop.
+
 Definition wr (fs : node) (lp : path) (fs' : node) : Prop :=
-  fs' = fs \/ exists v, fs' = put fs lp v /\ rdir fs (removelast lp) /\ compat (get fs lp) v.
+  fs' = fs \/ exists v, fs' = put fs lp v /\ rdir fs (removelast lp) /\ compat (get fs lp) v /\
+                         (forall t, v = Link t -> Q lp t).
 (* ... and what is written is not a symlink *)
 Definition wrn (fs : node) (lp : path) (fs' : node) : Prop :=
   fs' = fs \/ exists v, fs' = put fs lp v /\ rdir fs (removelast lp) /\ compat (get fs lp) v /\ is_link v = false.
 
 Lemma wrn_wr fs lp fs' : wrn fs lp fs' -> wr fs lp fs'.
-Proof. intros [->|(v & -> & A & B & _)]; [now left|right; eauto]. Qed.
+Proof. intros [->|(v & -> & A & B & Hv)]; [now left|right; exists v; repeat split; auto]. intros t ->. discriminate. Qed.
 
 Lemma removelast_snoc {A} (l : list A) x : removelast (l ++ [x]) = l.
 Proof. apply removelast_last. Qed.
@@ -111,17 +117,18 @@ Proof.
 Qed.
 
 Lemma symlink_wr target fs' r :
+  Q lp target ->
   nolink fs (removelast lp) -> symlink fs target lp = (fs', r) ->
   wr fs lp fs' /\ is_dir fs' = true.
 Proof.
-  intros Hn H. unfold symlink in H.
+  intros HQt Hn H. unfold symlink in H.
   destruct (resolve fs false lp) as [ph|e] eqn:Er; [|injection H as <- <-; split; [now left|exact Hroot]].
   destruct (resolve_lexical fs false lp ph Hroot Hplain (or_intror (conj eq_refl Hn)) Er) as [-> Hrd].
   destruct lp as [|x0 l0] eqn:El; [injection H as <- <-; split; [now left|exact Hroot]|].
   rewrite <- El in *.
   destruct (get fs lp) as [n|] eqn:Eg; [injection H as <- <-; split; [now left|exact Hroot]|].
   destruct target; injection H as <- <-; [split; [now left|exact Hroot]|].
-  split; [right; eexists; repeat split; [exact Hrd|rewrite Eg; exact I]|apply put_keeps_root; [exact Hroot|rewrite El; discriminate]].
+  split; [right; eexists; repeat split; [exact Hrd|rewrite Eg; exact I|intros t0 [= <-]; exact HQt]|apply put_keeps_root; [exact Hroot|rewrite El; discriminate]].
 Qed.
 
 Lemma chmod_wr perm fs' r :
@@ -156,7 +163,7 @@ End Ops.
 
 (* ---------- what every write preserves ---------- *)
 Lemma wr_rdir fs lp fs' q : wr fs lp fs' -> rdir fs q -> rdir fs' q.
-Proof. intros [->|(v & -> & Hr & Hc)] H; [exact H|now apply rdir_put]. Qed.
+Proof. intros [->|(v & -> & Hr & Hc & _)] H; [exact H|now apply rdir_put]. Qed.
 
 Lemma wrn_nolink fs lp fs' q : wrn fs lp fs' -> nolink fs q -> nolink fs' q.
 Proof. intros [->|(v & -> & Hr & Hc & Hv)] H; [exact H|now apply nolink_put]. Qed.
@@ -237,7 +244,7 @@ Proof. split; auto. Qed.
 Lemma preserves_trans a b c : preserves a b -> preserves b c -> preserves a c.
 Proof. intros [A1 A2] [B1 B2]. split; auto. Qed.
 Lemma wrn_preserves fs lp fs' : wrn fs lp fs' -> preserves fs fs'.
-Proof. intros H. split; intros q Hq; [eapply wr_rdir; [apply wrn_wr|]; eauto|eapply wrn_nolink; eauto]. Qed.
+Proof. clear Q. intros [->|(v & -> & Hr & Hc & Hv)]; split; intros q Hq; auto; [now apply rdir_put|now apply nolink_put]. Qed.
 
 Lemma stat_dir_rdir fs p n :
   is_dir fs = true -> forallb plainb p = true -> nolink fs p ->
@@ -358,7 +365,7 @@ Proof. apply seg_ok_plain. Qed.
 
 Lemma filter_nonempty_plain l : forallb seg_ok l = true ->
   filter (fun c => negb (is_empty c)) l = l.
-Proof.
+Proof. clear Q.
   induction l as [|g l IH]; cbn; [reflexivity|]. intros H. apply andb_true_iff in H as [Hg Hl].
   assert (is_empty g = false).
   { apply seg_ok_plain in Hg. unfold plain in Hg. rewrite !andb_true_iff, !negb_true_iff in Hg. tauto. }
@@ -366,7 +373,7 @@ Proof.
 Qed.
 
 Lemma comps_of_clean_plain s : is_rooted s = true -> forallb plainb (comps_of (clean s)) = true.
-Proof.
+Proof. clear Q.
   intros Hr. unfold clean. destruct s as [|c s']; [discriminate|]. rewrite Hr.
   set (st := nrun true (0, []) (split_on slash (c :: s'))).
   assert (Hok : st_ok st) by (apply nrun_ok; [reflexivity|apply split_segs_noslash]).
@@ -408,12 +415,20 @@ Proof.
   destruct (plain_split p Hne) as (pre & x & ->). rewrite removelast_snoc. eapply rdir_prefix; eauto.
 Qed.
 
+Lemma comps_of_seg_ok s : forallb plainb (comps_of s) = true -> forallb seg_ok (comps_of s) = true.
+Proof.
+  intros Hp. apply forallb_forall. intros g Hg. rewrite forallb_forall in Hp.
+  unfold seg_ok. pose proof (Hp g Hg) as Hpg. unfold plainb in Hpg. rewrite Hpg. cbn. apply negb_true_iff.
+  destruct (mem_char slash g) eqn:E; [|reflexivity]. apply mem_char_In in E.
+  unfold comps_of in Hg. apply filter_In in Hg as [Hg _]. now apply (split_segs_noslash s) in Hg.
+Qed.
+
 (* what NewUnpackInfo guarantees about the path it returns *)
 Lemma new_unpack_info_spec fs dst e lp :
   dst_ok dst -> is_dir fs = true -> rdir fs (comps_of dst) ->
   new_unpack_info fs dst e = Some lp ->
   exists comps, lp = comps_of dst ++ comps /\ forallb plainb lp = true /\
-    (if is_sym e then nolink fs (removelast lp) else nolink fs lp).
+    (if is_sym e then nolink fs (removelast lp) else nolink fs lp) /\ forallb seg_ok lp = true.
 Proof.
   intros [Hdr Hdc] Hd Hb H. unfold new_unpack_info in H.
   destruct (e_name e) as [|c r]; [discriminate|].
@@ -429,6 +444,7 @@ Proof.
   destruct (lstat_walk fs (comps_of dst) comps _) eqn:Ew; [|discriminate].
   destruct (is_dir_e e || is_sym e || is_reg e || is_typex e); [|discriminate].
   injection H as <-. exists comps. split; [reflexivity|]. rewrite <- Es. split; [exact Hpp|].
+  split; [|now apply comps_of_seg_ok].
   assert (Hpc : forallb plainb comps = true) by (rewrite Es, forallb_app in Hpp; now apply andb_true_iff in Hpp).
   destruct (rdir_get fs _ Hb) as (pm & mt & ks & Hg).
   pose proof (lstat_walk_nolink fs comps (comps_of dst) _ _ Hd Hb Hbp Hpc Hg Ew) as Hn.
@@ -478,18 +494,23 @@ Variable allow : list str.
 Variable dst : str.
 Hypothesis Hdst : dst_ok dst.
 Let base := comps_of dst.
+(* [T t]: what is known of the link targets in the archive *)
+Variable T : str -> Prop.
+Hypothesis HQ : forall lp t, forallb seg_ok lp = true ->
+  valid_symlink allow dst (join_abs lp) t = true -> T t -> Q lp t.
 
 Lemma unpack_entry_safe fs dirs e fs' dirs' r :
+  (is_sym e = true -> T (e_link e)) ->
   inv base fs -> dirs_ok base fs dirs ->
   unpack_entry is_root allow fs dst dirs e = (fs', dirs', r) ->
   steps base fs fs' /\ inv base fs' /\ dirs_ok base fs' dirs'.
 Proof.
-  intros Hinv Hdirs H. pose proof Hinv as [Hd Hb]. unfold unpack_entry in H.
+  intros HT Hinv Hdirs H. pose proof Hinv as [Hd Hb]. unfold unpack_entry in H.
   assert (Hsame : steps base fs fs /\ inv base fs /\ dirs_ok base fs dirs)
     by (fin3 (steps_refl base fs) Hinv Hdirs).
   destruct (e_name e) as [|c0 nm] eqn:En; [injection H as <- <- <-; exact Hsame|].
   destruct (new_unpack_info fs dst e) as [lp|] eqn:Ei; [|injection H as <- <- <-; exact Hsame].
-  destruct (new_unpack_info_spec fs dst e lp Hdst Hd Hb Ei) as (comps & Hlp & Hpl & Hnl).
+  destruct (new_unpack_info_spec fs dst e lp Hdst Hd Hb Ei) as (comps & Hlp & Hpl & Hnl & Hsok).
   fold base in Hlp.
   assert (Hnlpar : nolink fs (removelast lp)).
   { destruct (is_sym e); [exact Hnl|].
@@ -527,9 +548,9 @@ Proof.
   { destruct P1 as [_ P1]. destruct (is_sym e); now apply P1. }
   destruct (is_sym e) eqn:Esym.
   { (* symlink entry *)
-    destruct (valid_symlink allow dst (join_abs lp) (e_link e)); [|injection H as <- <- <-; fin3 S1 I1 D1].
+    destruct (valid_symlink allow dst (join_abs lp) (e_link e)) eqn:Ev; [|injection H as <- <- <-; fin3 S1 I1 D1].
     destruct (symlink fs1 (e_link e) lp) as [fs2 r2] eqn:Es.
-    destruct (symlink_wr fs1 lp Hd1 Hpl (e_link e) fs2 r2 Hnl1 Es) as [W Hd2].
+    destruct (symlink_wr fs1 lp Hd1 Hpl (e_link e) fs2 r2 (HQ lp (e_link e) Hsok Ev (HT eq_refl)) Hnl1 Es) as [W Hd2].
     assert (S2 : steps base fs fs2) by (eapply steps_trans; [exact S1|rewrite Hlp in W; eapply steps_one; eauto]).
     assert (P2 : rpres fs1 fs2) by (intros q Hq; eapply wr_rdir; eauto).
     assert (I2 : inv base fs2) by (constructor; [exact Hd2|now apply P2]).
@@ -598,16 +619,17 @@ Proof.
 Qed.
 
 Lemma unpack_entries_safe : forall es fs dirs fs' dirs' r,
+  (forall e, In e es -> is_sym e = true -> T (e_link e)) ->
   inv base fs -> dirs_ok base fs dirs ->
   unpack_entries is_root allow fs dst dirs es = (fs', dirs', r) ->
   steps base fs fs' /\ inv base fs' /\ dirs_ok base fs' dirs'.
 Proof.
-  induction es as [|e es IH]; intros fs dirs fs' dirs' r Hinv Hd H.
+  induction es as [|e es IH]; intros fs dirs fs' dirs' r HT Hinv Hd H.
   - cbn in H. injection H as <- <- <-. fin3 (steps_refl base fs) Hinv Hd.
   - cbn in H. destruct (unpack_entry is_root allow fs dst dirs e) as [[fs1 dirs1] r1] eqn:Ee.
-    destruct (unpack_entry_safe fs dirs e fs1 dirs1 r1 Hinv Hd Ee) as (S1 & I1 & D1).
+    destruct (unpack_entry_safe fs dirs e fs1 dirs1 r1 (HT e (or_introl eq_refl)) Hinv Hd Ee) as (S1 & I1 & D1).
     destruct r1; [injection H as <- <- <-; fin3 S1 I1 D1|].
-    destruct (IH _ _ _ _ _ I1 D1 H) as (S2 & I2 & D2).
+    destruct (IH _ _ _ _ _ (fun e0 Hin => HT e0 (or_intror Hin)) I1 D1 H) as (S2 & I2 & D2).
     split; [eapply steps_trans; eauto|split; assumption].
 Qed.
 
@@ -647,7 +669,7 @@ Lemma steps_put fs fs' :
   rdir fs' base /\ exists d, fs' = put fs base d.
 Proof.
   intros H. induction H as [a b [rel W]| a | a b c H1 IH1 H2 IH2]; intros Hb.
-  - destruct W as [->|(v & -> & Hr & Hc)].
+  - destruct W as [->|(v & -> & Hr & Hc & _)].
     + split; [exact Hb|]. destruct (rdir_get a base Hb) as (pm & mt & ks & Hg).
       exists (Dir pm mt ks). symmetry. now apply put_get_same.
     + split; [now apply rdir_put|].
@@ -662,6 +684,7 @@ Proof.
     destruct (rdir_get a base Hb) as (pm & mt & ks & Hg). congruence.
 Qed.
 End Entry.
+End Writes.
 
 (* ====================================================================== *)
 (* C01 on the model                                                        *)
@@ -678,11 +701,13 @@ Proof.
   assert (Hinv : inv (comps_of dst) fs) by (constructor; assumption).
   assert (Hd0 : dirs_ok (comps_of dst) fs []) by (intros p e []).
   destruct (unpack_entries is_root allow fs dst [] es) as [[fs1 dirs1] r1] eqn:Ee.
-  destruct (unpack_entries_safe is_root allow dst Hdst es fs [] fs1 dirs1 r1 Hinv Hd0 Ee) as (S1 & I1 & D1).
+  set (Q := fun (_ : path) (_ : str) => True).
+  destruct (unpack_entries_safe Q is_root allow dst Hdst (fun _ => True) (fun _ _ _ _ _ => I) es fs [] fs1 dirs1 r1
+              (fun _ _ _ => I) Hinv Hd0 Ee) as (S1 & I1 & D1).
   destruct r1 as [r1|].
-  - injection H as <- <-. now destruct (steps_put dst fs fs1 S1 Hb) as [_ ?].
-  - pose proof (restore_dirs_safe dst dirs1 fs1 fs' r I1 D1 H) as S2.
-    now destruct (steps_put dst fs fs' (steps_trans _ _ _ _ S1 S2) Hb) as [_ ?].
+  - injection H as <- <-. now destruct (steps_put Q dst fs fs1 S1 Hb) as [_ ?].
+  - pose proof (restore_dirs_safe Q dst dirs1 fs1 fs' r I1 D1 H) as S2.
+    now destruct (steps_put Q dst fs fs' (steps_trans Q _ _ _ _ S1 S2) Hb) as [_ ?].
 Qed.
 
 (* a prefix of the entry list is a run interrupted by a reader fault: same guarantee *)
